@@ -40,7 +40,9 @@ type schemaGen struct {
 	HasEnumQuote bool // an enum value contains a single quote or a backslash
 }
 
-func newSchemaGen(r *hx.Rand, cfg genCfg) *schemaGen { return &schemaGen{r: r, cfg: cfg, used: map[string]bool{}} }
+func newSchemaGen(r *hx.Rand, cfg genCfg) *schemaGen {
+	return &schemaGen{r: r, cfg: cfg, used: map[string]bool{}}
+}
 
 func (g *schemaGen) ident(prefix string) string {
 	for {
